@@ -415,6 +415,12 @@ func (ge *GuardEngine) calleeEnv(callee *ssa.Function, c *ssa.CallCommon, env *E
 	args := c.Args
 	for i, prm := range callee.Params {
 		if i < len(args) {
+			if ge.pv.CopyIsFresh {
+				if _, isPtr := args[i].Type().Underlying().(*types.Pointer); isPtr {
+					ne.params[prm] = ge.writeRoot(args[i], env) // effect mode: pointers are bound to the object they point into
+					continue
+				}
+			}
 			ne.params[prm] = ge.pv.Atom(args[i], env)
 		}
 	}
